@@ -16,6 +16,9 @@ CLAIMED = {
  "C19": ("typestate over the extracted file-system effect sequence of the commit function; post-dominance with exceptional edges on a statement CFG; who-may-open rule; dominance of the resume skip",
          "Static: every kill point of atomic_write's commit is a prefix of its extracted effect sequence, and after each prefix the destination is old or new (never absent); no writer's exception handler deletes the destination; every atomic_write is released on all paths including exceptional ones, and __exit__ commits only on success and cleans up on failure; writers never open the destination directly; apply_to's skip of completed inputs dominates scheduling. Not decided: behaviour of the OS, the zip commit, that a resumed run ends with an identical store.",
          "Trusts python ast, the CFG construction (exception edge from every statement containing a call), POSIX atomic rename/replace."),
+ "C13": ("dominance of a mode check over every file-system mutation on a statement CFG with self-calls inlined; identifier taint (def-use) against exact/anchored matching idioms; SQL sibling column agreement",
+         "Static: every file-system mutation reachable from a public DataStoreDirectory method is dominated by a READONLY check (the SQLite store by its typed read-only handle); identifiers are only matched exactly or by anchored forms; a completed write retires the not-completed record of the same identifier on every path; the UPDATE and INSERT branches persist the same columns; _check_writable refuses READONLY writes and APPEND overwrites. Equality with a dictionary model over arbitrary histories is not decided.",
+         "Trusts python ast, CFG/dominators, the resolver for self./super() calls (depth 3), sqlite mode=ro."),
 }
 
 NOT_APPLICABLE = {
